@@ -328,6 +328,15 @@ def run(ctx):
             f = 'exception-%s: %s' % (c['op'], type(ex).__name__ + ':' + str(ex)[:100])
         if f:
             ctx.report(c, 'failure', f)
+    # trace of every rectangular shape up to 5 x 5 (tall by one, by two or more rows, wide), on every run
+    for (r_, c_) in [(a_, b_) for a_ in range(1, 6) for b_ in range(1, 6)]:
+        D, P = rng.randint(1, 3), rng.randint(1, 2)
+        c = {'op': 'trace', 'D': D, 'P': P, 'x': rand_coeffs(rng, (D, P, r_, c_), -2, 2)}
+        ctx.evaluations += 1
+        ctx.count('op=trace:every-shape')
+        f = check(ctx, c)
+        if f:
+            ctx.report(c, 'failure', f)
     # expm_higham_2005 with directions whose norms lie in different Pade ranges, in both orders (the order must be the one the
     # largest direction needs)
     for amps in [(1e-3, 1.9), (1.9, 1e-3), (0.05, 0.6), (0.6, 0.05), (0.2, 1.2, 1e-3)]:
